@@ -1,12 +1,20 @@
 #!/bin/sh
-# usage: try_mutant.sh <patch.diff> <property> [tier]   -- applies the patch to /repo, runs the check, reverts.
+# usage: try_mutant.sh <patch.diff> <property> [tier]
+# Applies the patch in a scratch worktree of /repo's HEAD (never in /repo itself, so
+# that background runs building from /repo are not disturbed), runs the check against
+# that worktree (VERIF_REPO), removes the worktree. Equivalent to
+#   git -C /repo apply <patch>; ./check <property> quick; git -C /repo checkout -- .
 patch="$1"; prop="$2"; tier="${3:-quick}"
-cd /repo || exit 2
-if ! git apply --check "$patch" 2>/dev/null; then
-  if ! git apply --3way $APPLY_OPTS "$patch" 2>/tmp/apply.err; then echo "PATCH DOES NOT APPLY: $patch"; cat /tmp/apply.err | head -5; git reset -q HEAD; git checkout -- . ; exit 3; fi
+wt=$(mktemp -d /tmp/mutwt-XXXXXX); rmdir "$wt"
+git -C /repo worktree add -f "$wt" HEAD >/dev/null 2>&1 || { echo "worktree failed"; exit 2; }
+cd "$wt" || exit 2
+if ! git apply --check $APPLY_OPTS "$patch" 2>/dev/null; then
+  if ! git apply --3way $APPLY_OPTS "$patch" 2>/tmp/apply.err; then echo "PATCH DOES NOT APPLY: $patch"; head -5 /tmp/apply.err; cd /; git -C /repo worktree remove --force "$wt"; exit 3; fi
 else
-  git apply "$patch"
+  git apply $APPLY_OPTS "$patch"
 fi
-cd /verif && ./check "$prop" "$tier" > /tmp/mutant.out 2>/tmp/mutant.err; rc=$?
-cd /repo && git reset -q HEAD && git checkout -- . && git status --short | head -3
-echo "exit=$rc"; grep -a -c "^VIOLATION" /tmp/mutant.out; grep -a -A3 "^VIOLATION" /tmp/mutant.out | cut -c1-400 | head -16; tail -2 /tmp/mutant.err
+out=$(mktemp /tmp/mutant-out-XXXXXX); err=$(mktemp /tmp/mutant-err-XXXXXX)
+cd /verif && VERIF_REPO="$wt" ./check "$prop" "$tier" > "$out" 2> "$err"; rc=$?
+cd /; git -C /repo worktree remove --force "$wt"; git -C /repo worktree prune
+echo "exit=$rc"; grep -a -c "^VIOLATION" "$out"; grep -a -A3 "^VIOLATION" "$out" | cut -c1-400 | head -16; tail -2 "$err"
+cp "$out" /tmp/mutant.out; cp "$err" /tmp/mutant.err; rm -f "$out" "$err"
